@@ -121,6 +121,10 @@ def programs(tier):
         for f in funcs:
             yield 'apply', ('apply', b, ('py', f)), []
             yield 'applyl', ('applyl', ('py', f), b), []
+            # the function side consumes input itself (a sign, a tag): f <| a parses f first, a |> f parses a first
+            yield 'applyl', ('applyl', ('right', ('re', '[ab;]'), ('py', f)), b), []
+            yield 'apply', ('apply', b, ('right', ('str', ';'), ('py', f))), []
+            yield 'applyl', ('choice', ('applyl', ('right', ('str', 'a'), ('py', f)), b), ANY), []
             yield 'apply-choice', ('choice', ('seq', ('apply', b, ('py', f)), ('str', ';')), ANY), []
 
 
@@ -133,10 +137,16 @@ def well_typed(tag, e):
 AFTER = [('UsesXY', ('rule', None, ('seq', ('ref', 'x'), ('opt', ('ref', 'y')))))]
 
 
+# rules compiled BEFORE the program that contain the very argument texts the programs use, with x / y being the decoy rules
+BEFORE = [('Dz1', ('rule', None, ('call', 'T2', [('where', ANY, ('py', 'lambda v: v == x'))], []))),
+          ('Dz2', ('rule', None, ('call', 'T2', [('where', ANY, ('py', 'lambda v: v == y'))], []))),
+          ('Dz3', ('rule', None, ('call', 'T', [('ref', 'x')], [])))]
+
+
 def jobs(tier):
     inp = 'ab02;:4' if tier == 'quick' else 'ab012;:4'
     for tag, e, extra in programs(tier):
-        rules = [('start', ('rule', None, e))] + TMPL + list(extra) + AFTER
+        rules = BEFORE + [('start', ('rule', None, e))] + TMPL + list(extra) + AFTER
         mods = [(tuple(rules), (), 'start', None, (), False, 'named', None)]
         if tag in ('where', 'apply', 'applyl', 'where-star', 'where-choice', 'where-opt', 'apply-choice'):
             yield {'mods': mods, 'inputs': 'ab01;:4', 'mode': 'simple', 'tag': tag, 'pyraise': True}
